@@ -28,6 +28,9 @@ STREAMS = {
     'leak': {'quick': 1600, 'thorough': 60000, 'chunk': 40, 'selftest_max': 30},
     # heavy re-registration in a tiny namespace (names that shadow built-ins included), judged after every step
     'rebind': {'quick': 2000, 'thorough': 100000, 'chunk': 100},
+    # ten evaluations of ONE built-in (walking the registry) with arguments by parameter name, each judged against
+    # a pristine process: state a function keeps for itself at module level
+    'fnhistory': {'quick': 1600, 'thorough': 60000, 'chunk': 60},
 }
 
 CLOCKS = ['2024-02-29T13:14:15.161718', '2024-02-29T23:59:59.999999', '2024-03-01T00:00:00', '1900-01-01T00:00:00',
@@ -266,7 +269,47 @@ def execute_rebind(sc, stats):
     return vio
 
 
+def gen_fnhistory(rng, i):
+    names = formgen.fn_names()
+    name = names[i % len(names)]
+    slot = {'debug': False, 'variables': {'v_0': V.L(V.I(3), V.I(1), V.I(2)), 'v_1': V.I(7)}, 'functions': {},
+            'listeners': {'callCellValue': [[{'a': 'table'}]], 'callRangeValue': [[{'a': 'set', 'v': [V.L(V.L(V.I(1), V.I(2)), V.L(V.I(3), V.I(4)))]}]]}}
+    env = scen.slot_env(slot)
+    forms = []
+    for _ in range(rng.choice([6, 10, 14])):
+        f = formgen.tame(formgen.builtin_call(rng, env, 1, name, force_typed=rng.random() < 0.85))
+        if rng.random() < 0.25:
+            f = rng.choice(['%s&""', 'ISERROR(%s)', '%s=%s', 'LEN(%s&"")']).replace('%s', f)
+        forms.append(f)
+    clock = rng.choice(CLOCKS)
+    return {'engine': 'fnhistory', 'slots': [slot], 'formulas': forms, 'clock': clock, 'rand': 0.25, 'tick_us': None, 'fn': name}
+
+
+def execute_fnhistory(sc, stats):
+    from hxsim import cleanroom
+    spec = sc['slots'][0]
+    world = World([scen.clone(spec)])
+    clock = StepClock()
+    elems = scen.host_elements(spec)
+    for k, f in enumerate(sc['formulas']):
+        _set_env(sc, sc['clock'])
+        got = _outcome(world, clock, 0, f, elems)
+        ref = cleanroom.call('checks.c02', 'cleanroom_eval', scen.clone(spec), f, sc['clock'], None, sc['rand'])
+        stats['evals'] += 1
+        if got != ref:
+            stats['steps'] += clock.steps
+            return [{'invariant': 'H1_history_dependence', 'sig': 'H1',
+                     'detail': {'op': k, 'formula': _esc(f), 'in_history': got, 'fresh_parser': ref, 'function': sc.get('fn'),
+                                'earlier_formulas': [_esc(x) for x in sc['formulas'][:k]][-8:]}}]
+    stats['steps'] += clock.steps
+    stats['fault:reference_in_pristine_process'] += 1
+    sc['_nt'] = [1]
+    return []
+
+
 def gen(stream, rng, i, cfg):
+    if stream == 'fnhistory':
+        return gen_fnhistory(rng, i)
     if stream == 'rebind':
         return gen_rebind(rng, i)
     if stream == 'leak':
@@ -346,7 +389,9 @@ def gen(stream, rng, i, cfg):
     return {'slots': slots, 'ops': ops, 'rand': rng.choice([0.0, 0.25, 0.5, 0.75, 0.999999]),
             'tick_us': rng.choice([None, None, 1, 1000000, 86400000000]),
             'ref_phase': rng.choice(['before', 'after', 'before_reversed', 'after_reversed']),
-            'ref_mode': 'cleanroom' if rng.random() < 0.35 else 'inprocess'}
+            'ref_mode': 'cleanroom' if rng.random() < 0.35 else 'inprocess',
+            # a host that runs with warnings escalated to errors (python -W error): a configuration like any other
+            'warnings_as_errors': rng.random() < 0.12}
 
 
 def _jump(rng, cur):
@@ -459,7 +504,8 @@ def _references(sc, stats, clock, reverse=False):
         # every reference in its own process forked from a pristine zygote: nothing evaluated before it
         from hxsim import cleanroom
         for k, spec, f, iso, flip in todo:
-            refs[k] = (cleanroom.call('checks.c02', 'cleanroom_eval', spec, f, iso, sc.get('tick_us'), sc['rand']), flip)
+            refs[k] = (cleanroom.call('checks.c02', 'cleanroom_eval', spec, f, iso, sc.get('tick_us'), sc['rand'],
+                                      bool(sc.get('warnings_as_errors'))), flip)
             stats['ref_evals_cleanroom'] += 1
         stats['fault:reference_in_pristine_process'] += 1
         return refs
@@ -471,8 +517,11 @@ def _references(sc, stats, clock, reverse=False):
     return refs
 
 
-def cleanroom_eval(spec, f, iso, tick_us, rand):
+def cleanroom_eval(spec, f, iso, tick_us, rand, warnings_as_errors=False):
     """Runs in a process that has never evaluated anything (see hxsim/cleanroom.py)."""
+    if warnings_as_errors:
+        import warnings
+        warnings.simplefilter('error')
     w = World([spec])
     _set_env({'tick_us': tick_us, 'rand': rand}, iso)
     return _outcome(w, StepClock(), 0, f, scen.host_elements(spec))
@@ -593,6 +642,8 @@ def nontrivial(sc, stats):
         return canon.digest_int([sc['slots'], sc['formula']]) if nt else None
     if sc.get('engine') == 'rebind':
         return canon.digest_int(sc['ops'])
+    if sc.get('engine') == 'fnhistory':
+        return canon.digest_int(sc['formulas'])
     if not nt or len(sc['ops']) < 2:
         return None
     return canon.digest_int([sc['slots'], sc['ops']])
@@ -609,6 +660,7 @@ CENSUS_CLASSES = [
     ('aborted', 'SUM(1,ABORT())', None), ('interrupted_timeout', 'SUM({1,2,3},v_0)+LEN("abc")*2', ('timeout', 90)),
     ('interrupted_abort', 'SUM({1,2,3},v_0)+LEN("abc")*2', ('abort', 140)), ('interrupted_in_error', 'SUM(1,FX())+1', ('timeout', 200)),
     ('distinct_formulas', None, None), ('distinct_failing_formulas', None, None), ('debug_error', '1/0+zz_top', 'debug'),
+    ('distinct_failing_formulas_debug', None, 'debug'),
     ('nested_other', 'FN()+1', None),
     # failing evaluations AFTER an evaluation that was cut short (the cut itself is the prelude, not repeated)
     ('errors_after_callback_abort', '1/0+zz_top', 'prelude:abort'),
@@ -698,7 +750,7 @@ def census_task(arg):
                 f = formula
                 if name == 'distinct_formulas':
                     f = '%d+LEN("s%d")+XF%d' % (counter[0] + 1000, counter[0], counter[0] % 1048576 + 1)
-                elif name == 'distinct_failing_formulas':
+                elif name.startswith('distinct_failing_formulas'):
                     f = '%d/0+u_%d_x' % (counter[0] + 1000, counter[0])
                 intr = None
                 if isinstance(extra, tuple):
@@ -774,6 +826,12 @@ def single_process_tasks(tier, seed, cfg):
 # ---------------------------------------------------------------- shrinking
 def shrink_candidates(sc):
     if 'census_class' in sc:
+        return
+    if sc.get('engine') == 'fnhistory':
+        for c in scen.shrink_list(sc['formulas'], 1):
+            d = dict(sc)
+            d['formulas'] = c
+            yield d
         return
     if sc.get('engine') == 'rebind':
         for c in scen.shrink_list(sc['ops'], 1):
@@ -851,7 +909,17 @@ def execute_census_replay(sc):
     return out
 
 
-_execute_history = execute
+def _execute_history(sc, stats):
+    if sc.get('warnings_as_errors'):
+        import warnings
+        with warnings.catch_warnings():
+            warnings.simplefilter('error')
+            stats['fault:host_runs_with_warnings_as_errors'] += 1
+            return _execute_history_inner(sc, stats)
+    return _execute_history_inner(sc, stats)
+
+
+_execute_history_inner = execute
 
 
 def execute(sc, stats):  # noqa: F811  (dispatch: census replays vs histories)
@@ -861,6 +929,8 @@ def execute(sc, stats):  # noqa: F811  (dispatch: census replays vs histories)
         return execute_leak(sc, stats)
     if sc.get('engine') == 'rebind':
         return execute_rebind(sc, stats)
+    if sc.get('engine') == 'fnhistory':
+        return execute_fnhistory(sc, stats)
     if 'census_class' in sc:
         r = census_task({'N': sc.get('N', 200), 'block_tol': 150})
         return [v for s, vs in r['violations'] if s['census_class'] == sc['census_class'] for v in vs] or \
@@ -890,7 +960,7 @@ def describe():
                 'live-object census over 29 hand-picked outcome classes and over generated formulas (every built-in in turn, arguments by '
                 'parameter name, error values among them, wrapped in IFERROR/ISERROR); distinct = distinct (slots, operation list) by blake2b digest; '
                 'non-trivial = history of >= 2 operations in which at least one judged evaluation produced a value',
-        'fault_kinds': ['interrupt_timeout', 'interrupt_abort', 'interrupt_sweep_point', 'cb_abort', 'cb_raise', 'listener_raise',
+        'fault_kinds': ['interrupt_timeout', 'interrupt_abort', 'interrupt_sweep_point', 'host_runs_with_warnings_as_errors', 'cb_abort', 'cb_raise', 'listener_raise',
                         'syntaxerror_from_callback', 'rebind_variable', 'rebind_function', 'unset_function', 'rebind_listener', 'listener_off',
                         'debug_toggle', 'parser_built_mid_history', 'reference_in_pristine_process', 'clock_jump_forward', 'clock_jump_back', 'clock_tick'],
         'real_vs_stub': {'hotxlfp (all of it)': 'real', 'ply lex/yacc, dateutil': 'real', 'host callbacks': 'scripted',
